@@ -59,7 +59,7 @@ type vRes struct {
 	Counters []vSample `json:"counters"`
 	Err      string    `json:"err,omitempty"`
 	Panic    string    `json:"panic,omitempty"`
-	JSON     *string   `json:"json,omitempty"`
+	JSON     []byte    `json:"json,omitempty"`
 	JErr     string    `json:"jerr,omitempty"`
 	Alloc    uint64    `json:"alloc,omitempty"`
 	Ns       int64     `json:"ns,omitempty"`
@@ -293,8 +293,7 @@ func vRunMsg(m vMsg, wantJSON, measure bool) (res vRes) {
 		if jerr != nil {
 			res.JErr = jerr.Error()
 		} else {
-			s := string(b)
-			res.JSON = &s
+			res.JSON = append([]byte{}, b...)
 		}
 	}
 	return
